@@ -634,6 +634,9 @@ func reqLineFromValue(v interface{}) string {
 	case requests.SignatureProposalParticipantsListRequest:
 		var ps []PartSpec
 		for _, p := range r.Participants {
+			if p == nil { // `[null]`: no participant to describe; the request is refused as a whole
+				return "bad"
+			}
 			ps = append(ps, PartSpec{p.Username, string(p.PubKey), string(p.DkgPubKey)})
 		}
 		return reqList(ps, r.SigningThreshold, r.CreatedAt).line
